@@ -369,6 +369,7 @@ type AnchorSet struct {
 	Src   string
 	Store string
 	Send  string
+	Recv  string // "after recv CH": executed after a receive from CH (recv / recvok are bound)
 	Call  string // "at call NAME": executed just before a call of NAME
 	Loop  int    // "at loop k": executed at the head of loop k on every iteration
 }
@@ -664,6 +665,9 @@ func parseContractFile(path, pkgPath string) (*ContractFile, error) {
 					body = rest[:i]
 				} else if i := strings.LastIndex(rest, " after send "); i >= 0 {
 					as.Send = strings.TrimSpace(rest[i+len(" after send "):])
+					body = rest[:i]
+				} else if i := strings.LastIndex(rest, " after recv "); i >= 0 {
+					as.Recv = strings.TrimSpace(rest[i+len(" after recv "):])
 					body = rest[:i]
 				} else if i := strings.LastIndex(rest, " at call "); i >= 0 {
 					as.Call = strings.TrimSpace(rest[i+len(" at call "):])
